@@ -1042,7 +1042,7 @@ def text_fn(ctx: "Wtp", token: str) -> None:
 
 def hline_fn(ctx: "Wtp", token: str) -> None:
     """Processes a horizontal line token."""
-    # Pop nodes from the stack until we reach a LEVEL2 subtitle or a
+    # Pop nodes from the stack until we reach a LEVEL1/LEVEL2 title or a
     # table element.  We also won't pop HTML nodes as they might appear
     # in template definitions.
     close_begline_lists(ctx)
@@ -1050,6 +1050,7 @@ def hline_fn(ctx: "Wtp", token: str) -> None:
         node = ctx.parser_stack[-1]
         if node.kind in (
             NodeKind.ROOT,
+            NodeKind.LEVEL1,
             NodeKind.LEVEL2,
             NodeKind.TABLE,
             NodeKind.TABLE_CAPTION,
